@@ -118,10 +118,13 @@ CLAIMS = {
          "registered; an unknown name is 'template not found'; EvaluateFile = EvaluateString of the content. Tied to files.go / "
          "parser_utils.go by tree enumeration over directory spellings, extensions and every single-file fault.", "8.C18",
          "list/prefix-suffix lemmas + induction over the file list + correspondence on enumerated trees and faults"),
- "C19": ("proof", "Invariant proved in Coq: the lexer's counters equal the pure position function at every reachable offset; "
-         "fixed-width and EOF tokens carry exactly lc(start)/lc(end). The lexer model is tied to lexer.go by translator "
-         "tables plus a full-token-list correspondence run; the extracted tiling checker is applied to the implementation's tokens.",
-         "8.C19", "invariant by induction over readChar + refinement-checked model + extracted oracle"),
+ "C19": ("proof", "Invariant proved in Coq: the lexer's counters equal the pure position function at every reachable offset; every token "
+         "NextToken returns - text runs, strings, identifiers, numbers, directives, operators, braces, with comments skipped on the way - "
+         "starts and ends at the (line, column) of byte offsets of the input, never before the lexer's position, and ends before its new "
+         "position when it consumed input; the token list of an input is exact and ordered (induction over the lexer's loops and over "
+         "NextToken's fuel). Tiling (blank gaps), own text and Position.Contains at every cursor are checked by the extracted oracle on "
+         "the implementation's tokens; the model is tied to lexer.go by translator tables and a full-token-list correspondence run.",
+         "8.C19", "invariant by induction over readChar and every reading loop + refinement-checked model + extracted oracle"),
  "C20": ("proof", "Registry as a state machine: first registration per (type, name) wins and is never replaced, per-type independence, "
          "the registry survives any later operation history (induction over operation lists); dispatch consults exactly this registry. "
          "Tied by correspondence on exhaustive short histories.", "8.C20",
